@@ -212,7 +212,7 @@ def replay_near(mm, axis, n, sv, iv):
 
 
 def far_job(args):
-    tier, nt, npn, qt = args
+    tier, nt, npn, qt, which = args
     t0 = time.time()
     sh = symx.load()
     M = sh.mininec
@@ -228,27 +228,40 @@ def far_job(args):
         c = symx.ctx()
         r = RANGES[tier]
         v = {}
+        conc = dict(t0=10.0, ti=7.5, p0=0.0, pi=12.5)
         for nm in ('t0', 'ti', 'p0', 'pi'):
+            if nm[0] != which[0]:
+                v[nm] = conc[nm]          # the other angle is concrete in this job
+                continue
             v[nm] = SF.var(nm)
             c.assume(z3.Not(z3.fpIsNaN(v[nm].t)))
             c.assume(z3.Not(z3.fpIsInf(v[nm].t)))
             c.assume(z3.fpLEQ(z3.fpAbs(v[nm].t), fpval(720.0)))
+            if nm[1] == 'i':
+                c.assume(z3.fpGEQ(z3.fpAbs(v[nm].t), fpval(r['imin'])))
         m = catalogue.build(M, 'G1')
         m.power = 1.0
         m.current = np.ones(len(m.pulses), dtype=complex)
         zen, azi = Ang(v['t0'], v['ti'], nt), Ang(v['p0'], v['pi'], npn)
-        m.compute_far_field(zen, azi)
+        npf.state.arange_hook = fp.numpy_arange          # in case the angle lists are built with arange
+        try:
+            with symx.object_arrays():
+                m.compute_far_field(zen, azi)
+        finally:
+            npf.state.arange_hook = None
         ff = m.far_field
         return dict(zen=ff.zen, azi=ff.azi, gain=ff.gain, v=v,
                     rows=len(ff.db_as_mininec.__self__.zen.flat))
 
     with symx.shadow.trace_functions(sh):
-        paths = symx.explore(fn, query_timeout_ms=qt, max_paths=4)
+        paths = symx.explore(fn, query_timeout_ms=qt, max_paths=8)
     res['functions'] = sorted(sh.entered)
     res['paths'] = len(paths)
     res['solver_s'] += paths.solver_s
     res['queries'] += paths.queries
-    name = 'far-%dx%d' % (nt, npn)
+    name = 'far-%dx%d-%s' % (nt, npn, which)
+    if paths.aborted:
+        res['obls'].append((name + '/other-lengths', 'inconclusive', 'solver gave unknown while enumerating further feasible lengths'))
     for pi_, p in enumerate(paths):
         if p.exc is not None:
             raise symx.HarnessError('%s: %r' % (name, p.exc)) from p.exc
@@ -257,7 +270,13 @@ def far_job(args):
         ok_shape = o['zen'].size == nt * npn and o['azi'].size == nt * npn and o['gain'].shape[:2] == (nt, npn)
         oname = '%s/path%d/count' % (name, pi_)
         if not ok_shape:
-            rep = replay_far(mm, nt, npn, 10.0, 7.5, 0.0, 0.1)
+            s_ = z3.Solver()
+            s_.set('timeout', qt)
+            s_.add(p.pc + p.axioms)
+            args_ = (10.0, 7.5, 0.0, 0.1)
+            if str(s_.check()) == 'sat':
+                args_ = tuple(fp.fp_model_value(s_.model(), v[k]) if isinstance(v[k], SF) else v[k] for k in ('t0', 'ti', 'p0', 'pi'))
+            rep = replay_far(mm, nt, npn, *args_)
             if rep:
                 res['violations'].append(rep)
                 res['obls'].append((oname, 'violation', rep[1]))
@@ -269,8 +288,8 @@ def far_job(args):
         zen, azi = o['zen'], o['azi']            # meshgrid(zen, azi): shape (n_phi, n_theta)
         for a in range(npn):
             for t in range(nt):
-                zr = v['t0'] + SF(fpval(t)) * v['ti']
-                ar = v['p0'] + SF(fpval(a)) * v['pi']
+                zr = SF.lift(v['t0']) + SF(fpval(t)) * SF.lift(v['ti'])
+                ar = SF.lift(v['p0']) + SF(fpval(a)) * SF.lift(v['pi'])
                 goals.append(z3.fpEQ(SF.lift(zen[a][t]).t, zr.t))
                 goals.append(z3.fpEQ(SF.lift(azi[a][t]).t, ar.t))
         s = z3.Solver()
@@ -288,7 +307,7 @@ def far_job(args):
             res['obls'].append((oname, 'inconclusive', None))
         else:
             mdl = s.model()
-            c = {k: fp.fp_model_value(mdl, x) for k, x in v.items()}
+            c = {k: (fp.fp_model_value(mdl, x) if isinstance(x, SF) else x) for k, x in v.items()}
             rep = replay_far(mm, nt, npn, c['t0'], c['ti'], c['p0'], c['pi'])
             if rep is None:
                 res['obls'].append((oname, 'spurious', c))
@@ -322,14 +341,14 @@ def main(args):
     ck = Check('C16', args)
     tier = ck.tier
     if tier == 'quick':
-        qt = 45000
+        qt = 150000          # only spent when the code really needs floating-point length reasoning
         near = [(tier, n, ax, qt) for n, ax in ((1, 0), (2, 1), (3, 0), (3, 2), (4, 1), (5, 0), (6, 2), (7, 0),
                                                 (8, 1), (9, 2), (10, 0), (11, 1), (12, 2))]
-        far = [(tier, 3, 4, qt), (tier, 1, 1, qt), (tier, 7, 2, qt)]
+        far = [(tier, 3, 4, qt, 'theta'), (tier, 3, 4, qt, 'phi'), (tier, 1, 1, qt, 'theta'), (tier, 7, 2, qt, 'theta'), (tier, 2, 6, qt, 'phi')]
     else:
         qt = 300000
         near = [(tier, n, n % 3, qt) for n in list(range(1, 41)) + [50, 64, 73, 100]]
-        far = [(tier, a, b, qt) for a, b in ((1, 1), (3, 4), (7, 2), (19, 3), (10, 37), (100, 2), (2, 100))]
+        far = [(tier, a, b, qt, w) for a, b in ((1, 1), (3, 4), (7, 2), (19, 3), (10, 37), (100, 2), (2, 100)) for w in ('theta', 'phi')]
     ck.shadow_stats = symx.load().stats
     with mp.Pool(min(16, os.cpu_count() or 1)) as pool:
         results = pool.map(far_job, far) + pool.map(near_job, near, chunksize=1)
